@@ -16,7 +16,9 @@ from ..engine import tB, tF, tL, tO, b2f
 RULE = ("generated universes (3-14 dates on daily/business/weekly/sparse calendars, 1-7 columns, late listings, NaN gaps, delistings, "
         "zero and negative prices, constant columns for ties, three numeric grids) x date x algo x parameters x prior temp; each call runs "
         "the real algo on a real Strategy (direct call) or inside a Backtest (tapped stacks), the Lean model answers the same request, "
-        "an independent monitor recomputes the documented set.  distinct = (algo, flags/parameter class, outcome, prior shape, "
+        "an independent monitor recomputes the documented set; SelectActive is also judged inside life-cycle histories (the real "
+        "ClosePositionsAfterDates / RollPositionsAfterDates running every day in front of it; names held, sold earlier or never bought "
+        "when their date passes and asked for afterwards).  distinct =(algo, flags/parameter class, outcome, prior shape, "
         "what the current row contains)")
 ASSUMPTIONS = [
     "pandas Timestamp - DateOffset arithmetic and Timestamp comparison (window bounds are resolved with them on the Python side and "
@@ -1347,8 +1349,135 @@ def run_stream(ctx, bt, n_direct, n_pipes, corr_name, kinds=None):
         ctx.protocols.append((corr_name + ":backtest", n, d))
 
 
+# ------------------------------------------------------------------ SelectActive inside life-cycle histories
+# SelectActive's documented set is stated in terms of what ClosePositionsAfterDates / RollPositionsAfterDates have done, so the
+# direct-call cases above (perm filled by hand) judge only half of it.  Here the real life-cycle algos run day after day in front of
+# the real SelectActive (generator and tapped execution shared with C20), with names that are held, sold earlier or never bought when
+# their close / roll date passes, and asked for again afterwards.
+def gen_lifecycle(rng):
+    from . import C20
+    lazy_mode = "none" if rng.random() < 0.6 else None
+    if rng.random() < 0.25:      # the documented workflow: SelectActive feeding WeighEqually / Rebalance
+        spec = C20.gen_life_case(rng, lazy_mode=lazy_mode, fi=False, mode="rebalance")
+    else:
+        spec = C20.gen_life_case(rng, lazy_mode=lazy_mode)
+    T = len(spec["dates"])
+    due = {}
+    for nm, i in (spec.get("close") or {}).items():
+        if i is not None:
+            due[nm] = i
+    for nm, v in (spec.get("roll") or {}).items():
+        if v[0] is not None:
+            due[nm] = min(v[0], due.get(nm, T))
+    shape = "as-generated"
+    stack = spec["tree"]["stack"]
+    r = rng.random()
+    if spec["life"]["mode"] == "rebalance":
+        r = 0.5 if r < 0.6 else 1.0
+    if r < 0.45:
+        # some names are not traded until their date is behind them (never bought, then asked for), or are sold the day before
+        for a in stack:
+            if a["k"] != "trade_selected":
+                continue
+            for nm in sorted(due):
+                if nm not in spec["prices"] or rng.random() < 0.35:
+                    continue
+                how = rng.choice(["never-bought", "never-bought", "sold-before"])
+                for i, d in enumerate(spec["dates"]):
+                    if i <= due[nm] and nm in a["plan"].get(d, {}):
+                        if how == "never-bought" or i == due[nm]:
+                            del a["plan"][d][nm]
+                if how == "sold-before" and due[nm] >= 2:
+                    q = C20.gen_qty(rng, spec["integer"])
+                    a["plan"].setdefault(spec["dates"][0], {})[nm] = q
+                    for i in range(1, due[nm]):
+                        a["plan"].get(spec["dates"][i], {}).pop(nm, None)
+                    a["plan"].setdefault(spec["dates"][due[nm] - 1], {})[nm] = -q
+                for i in range(due[nm] + 1, T):
+                    if rng.random() < 0.5:
+                        a["plan"].setdefault(spec["dates"][i], {})[nm] = C20.gen_qty(rng, spec["integer"])
+                shape = "flat-at-date"
+    elif r < 0.7:
+        # the weighting part of the stack starts late: nothing is held while the early dates pass
+        for a in stack:
+            if a["k"] == "run_after":
+                a["i"] = rng.randint(1, max(1, T - 2))
+                shape = "late-start"
+    spec["c14_shape"] = shape
+    return spec
+
+
+def lifecycle_monitor(spec, log):
+    """SelectActive leaves the incoming list minus every name that ClosePositionsAfterDates / RollPositionsAfterDates has dealt with:
+    a security child of the strategy on a call of the algo made on or after the name's date in the table (order kept, nothing else
+    removed).  Judged from the tables of the case and the taps' before-snapshots only, never from perm.
+    -> (violations [(key, msg)], counters [str])"""
+    dts = pd.DatetimeIndex(spec["dates"])
+    tables = {"close": {nm: i for nm, i in (spec.get("close") or {}).items() if i is not None},
+              "roll": {nm: v[0] for nm, v in (spec.get("roll") or {}).items() if v[0] is not None}}
+    dealt = {}      # path -> {name: "flat" | "held"} (as the algo found it the first time)
+    out, cnt = [], []
+    asked_flat = set()
+    for e in log:
+        k = e["k"]
+        if e.get("err") or "post" not in e:
+            continue
+        if k in tables:
+            seen = dealt.setdefault(tuple(e["path"]), {})
+            for sn in e["pre"]["kids"]:
+                nm = sn.get("sec")
+                if nm is None or nm in seen or nm not in tables[k]:
+                    continue
+                if dts[tables[k][nm]] <= e["date"]:
+                    seen[nm] = "flat" if sn["pos"] == 0 else "held"
+                    cnt.append("lifecycle:%s:%s-when-its-date-passed" % (k, seen[nm]))
+        elif k == "select_active":
+            gone = dealt.get(tuple(e["path"]), {})
+            s0, s1 = list(e["sel0"]), list(e["sel1"])
+            exp = [s for s in s0 if s not in gone]
+            cnt.append("lifecycle:select-active-call:%s" % ("nothing-to-exclude" if exp == s0 else "excludes"))
+            for s in s0:
+                if gone.get(s) == "flat" and (tuple(e["path"]), s) not in asked_flat:
+                    asked_flat.add((tuple(e["path"]), s))
+                    cnt.append("lifecycle:flat-at-its-date-and-asked-for-later")
+            if s1 != exp:
+                extra = [s for s in s1 if s not in exp]
+                missing = [s for s in exp if s not in s1]
+                what = "lets-closed-or-rolled-through" if extra else ("drops-active" if missing else "order")
+                out.append(("C14/selected-set:SelectActive:life-cycle:" + what,
+                            "on %s SelectActive got %r and left %r, documented %r: closed / rolled by the life-cycle algos so far %r "
+                            "(close dates %r, roll dates %r)" % (pd.Timestamp(e["date"]).date(), s0, s1, exp, gone,
+                                                                {n: spec["dates"][i] for n, i in tables["close"].items()},
+                                                                {n: spec["dates"][i] for n, i in tables["roll"].items()})))
+    return out, cnt
+
+
+def run_lifecycle_case(ctx, bt, spec):
+    from . import C20
+    ctx.evaluations += 1
+    log, _, outcome = C20.execute(bt, spec)
+    ctx.count("lifecycle:cases:%s:%s" % (spec["life"]["mode"], spec.get("c14_shape", "replayed")))
+    ctx.count("lifecycle:run:%s" % ("completed" if not outcome["raised"] else "stopped:" + str(outcome["raised"]).split(":")[0]))
+    found, cnt = lifecycle_monitor(spec, log)
+    for c in cnt:
+        ctx.count(c)
+    seen = set()
+    for key, msg in found:
+        ctx.count("monitor:" + key)
+        if key not in seen:      # one replay file per clause and case
+            seen.add(key)
+            ctx.violation(key, msg, {"case": {"kind": "life-cycle", "spec": spec}})
+    return found
+
+
+def run_lifecycle(ctx, bt, n):
+    for _ in range(n):
+        run_lifecycle_case(ctx, bt, gen_lifecycle(ctx.rng))
+
+
 def run(ctx, bt):
     run_stream(ctx, bt, ctx.scale(6000, 100000), ctx.scale(120, 1500), "select")
+    run_lifecycle(ctx, bt, ctx.scale(70, 1200))
     # selection sequences (SelectAll / SelectThese / SelectHasData / SelectMomentum) inside complete backtests: the model evaluates
     # them on its own universe table (price columns up to the current row, sub-strategy indices) and trades what they select
     from .. import whole_run as W
@@ -1370,6 +1499,9 @@ def search(ctx, bt):
 
 def replay(bt, data, ctx):
     case = data["case"]["case"]
+    if case.get("kind") == "life-cycle":
+        run_lifecycle_case(ctx, bt, json.loads(json.dumps(case["spec"])))
+        return
     if case.get("source") == "backtest":
         case = dict(case)
         case["source"] = "backtest-replayed-as-direct-call"
